@@ -1219,6 +1219,45 @@ def block_e(rec):
     return idx
 
 
+def block_g(rec):
+    """Bounded-exhaustive: the code carried by every WebSocketDisconnected.  client disconnect codes x the way the
+    application learns of it (a receive, a send after the pump noticed, a no-op close after the pump noticed, a lost
+    send) x two follow-up operations x queue sizes."""
+    idx = 0
+    codes = (None, 1000, 1001, 3008, 4321, 4999)
+    learn = ([{'op': 'receive_text'}], [{'op': 'yield'}, {'op': 'yield'}, {'op': 'send_text', 'v': 'x'}],
+             [{'op': 'yield'}, {'op': 'yield'}, {'op': 'close'}],
+             [{'op': 'yield'}, {'op': 'yield'}, {'op': 'close', 'code': 4001, 'reason': 'cleanup'}],
+             [{'op': 'yield'}, {'op': 'yield'}, {'op': 'send_media', 'v': [1]}],
+             [{'op': 'receive_data', 'timeout': 1}, {'op': 'close'}])
+    follow = ({'op': 'send_text', 'v': 'y'}, {'op': 'send_data', 'v': {'hex': '01'}}, {'op': 'send_media', 'v': {'a': 1}},
+              {'op': 'receive_text'}, {'op': 'receive_media'}, {'op': 'close'}, {'op': 'accept'})
+    for code in codes:
+        disc = {'t': 'disc'}
+        if code is not None:
+            disc['code'] = code
+        for how in learn:
+            for f1 in follow:
+                for f2 in follow[:4]:
+                    for queue, rxy in ((0, False), (1, True), (4, False)):
+                        idx += 1
+                        if idx % rec.nshards != rec.shard:
+                            continue
+                        run_case(rec, {'spec': ('2.0', '2.4')[idx % 2], 'queue': queue, 'rx_yield': rxy,
+                                       'steps': [{'op': 'accept'}] + how + [f1, f2], 'client': [disc]}, 'disconnect-codes')
+    # connection lost through a failing send: later operations keep reporting the code of that failure
+    for kind in D.LOST_KINDS:
+        for f1 in follow:
+            for f2 in follow[:4]:
+                for queue in (0, 2):
+                    idx += 1
+                    if idx % rec.nshards != rec.shard:
+                        continue
+                    run_case(rec, {'spec': '2.4', 'queue': queue, 'fail': {'at': 1, 'kind': kind},
+                                   'steps': [{'op': 'accept'}, {'op': 'send_text', 'v': 'x'}, f1, f2]}, 'disconnect-codes')
+    return idx
+
+
 def block_f(rec):
     """Several apps in one process: each app's close reasons follow from its own configuration.  Not sharded
     (every process has its own apps): an app that exists already, one customised in place, the first app again,
@@ -1567,6 +1606,7 @@ def run(rec):
     nb = block_b(rec)
     nd = block_d(rec)
     ne = block_e(rec)
+    block_g(rec)
     rec.exhaustive = True
     if rec.shard == 0:
         rec.note('exhaustive: %d (script<=%d x client) pairs over %d ops, each under >=2 server configurations; '
@@ -1600,6 +1640,8 @@ def run(rec):
     rec.floor('phase.exhaustive-cancel', 1000)
     rec.floor('phase.types', 500)
     rec.floor('phase.apps', 200)
+    rec.floor('phase.disconnect-codes', 2000)
+    rec.floor('branch.disconnect-code-repeated', 500)
     rec.floor('phase.handler-signatures', 300)
     rec.floor('phase.unserializable', 500)
     rec.floor('args.unserializable-media', 500)
